@@ -136,11 +136,22 @@ def main(check_name, tier, replay=None):
     plan = mod.plan("thorough" if baseline_mode else tier, seed, complete=baseline_mode)
     items = list(plan["items"])
     base = findings.load_baseline(mod.BASELINE) if getattr(mod, "BASELINE", None) else None
+    base_b = findings.load_baseline(mod.BASELINE + ".B") if getattr(mod, "BASELINE", None) else None
+    group = os.environ.get("VERIF_GROUP")
     known = findings.known_for(prop)
     inconclusive = []
     uh = mod.universe_hash() if hasattr(mod, "universe_hash") else None
     if base is not None and uh and base["universe_hash"] != uh and not baseline_mode:
         inconclusive.append(f"baseline {mod.BASELINE} was built for universe {base['universe_hash']}, current is {uh}")
+    if base_b is not None and not baseline_mode:
+        from vf import universe_b
+
+        if base_b["universe_hash"] != universe_b.content_hash():
+            inconclusive.append(f"baseline {mod.BASELINE}.B was built for universe {base_b['universe_hash']}, current is {universe_b.content_hash()}")
+        if base is None:
+            base = {"map": {}}
+        base = dict(base)
+        base["map"] = {**base["map"], **base_b["map"]}
 
     # witnesses of listed findings are replayed first (same worker code path)
     witness_items = []
@@ -160,7 +171,12 @@ def main(check_name, tier, replay=None):
         if problems:
             print("INCONCLUSIVE baseline run:", problems)
             return 2
-        findings.save_baseline(mod.BASELINE, uh, repo_rev(), case_sig, meta={"evals": m["evals"], "counters": m["counters"]})
+        bname = mod.BASELINE
+        if group == "B":
+            from vf import universe_b
+
+            bname, uh = mod.BASELINE + ".B", universe_b.content_hash()
+        findings.save_baseline(bname, uh, repo_rev(), case_sig, meta={"evals": m["evals"], "counters": m["counters"]})
         # propose known-finding entries: one per atomic mechanism, shortest witness
         by_atom = {}
         counts = {}
@@ -171,7 +187,7 @@ def main(check_name, tier, replay=None):
                 cur = by_atom.get(a)
                 if cur is None or size < cur[0]:
                     by_atom[a] = (size, case, detail)
-        prop_path = os.path.join(env.VERIF, "baseline", mod.BASELINE + ".proposed.json")
+        prop_path = os.path.join(env.VERIF, "baseline", bname + ".proposed.json")
         with open(prop_path, "w", encoding="utf-8") as f:
             json.dump(
                 {"property": prop, "counts": dict(sorted(counts.items(), key=lambda kv: -kv[1])),
